@@ -747,6 +747,7 @@ func (x *Exec) step(fr *Frame, st *State, in ssa.Instruction) {
 		if !ok {
 			x.abort("Lookup on %s", t.X.Type())
 		}
+		x.mapAccessCheck(fr, st, t, m, false)
 		v := st.mapGet(mt, m.T, key.T)
 		v.Typ = mt.Elem()
 		st.assumeLoaded(mt.Elem(), st.mapRaw(mt, m.T, key.T))
@@ -953,7 +954,10 @@ func (x *Exec) load(fr *Frame, st *State, in ssa.Instruction, p Val, ptrT types.
 		}
 		return v
 	case VFieldPtr:
-		return st.loadField(p.ST, p.FV, p.T)
+		x.raceCheck(fr, st, in, p, false)
+		v := st.loadField(p.ST, p.FV, p.T)
+		x.noteGuard(st, p, v)
+		return v
 	case VElemPtr:
 		return st.loadElem(p.Typ, p.Parts[0].T, app(SInt, "+", p.Parts[1].T, p.Idx))
 	case VGlobalPtr:
